@@ -58,6 +58,11 @@ def conditions(tier):
         cs = _p.pdrv_conditions(k_all=1, k_tags=2, stop_too=False, tag_stride=8)
     else:
         cs = _p.pdrv_conditions(k_all=2, k_tags=3, k_tags_rest=2, tag_stride=8, stop_too=False)
+    # acceptance must not depend on what the same matcher saw in an earlier document: after reset() the doc-string state is the initial one
+    for hist in ([["open", '"""'], ["reset"]], [["open", "   ```"], ["touch", "x"], ["reset"]], [["lang", "fr"], ["open", '"""'], ["reset"]]):
+        for kind, head in (("DocStringSeparator", "```"), ("DocStringSeparator", '"""')):
+            cs.append(Cond("harness.line", "line_after_history", {"kind": kind, "head": head, "history": hist, "maxlen": 1, "maxind": 1}, T=600,
+                           label="line.after_history[%s head=%r after %s]" % (kind, head, hist[0])))
     cs.append(Cond("harness.pdrv", "twin_never_accepts", {"prefix": [4]}, T=120, expect="cex"))
     cs.append(Cond("harness.pdrv", "twin_never_rejects", {"prefix": [4]}, T=120, expect="cex"))
     return cs
